@@ -649,7 +649,7 @@ fn main() {
             }
         }
     }
-    let ctx = Ctx::new("C19", tier, tier.pick(55, 570));
+    let ctx = Ctx::new("C19", tier, tier.pick(240, 900));
     // replay files of earlier runs of this property are stale once a new exploration starts
     if let Ok(rd) = std::fs::read_dir(format!("{}/replays/C19", mclib::engine::verif_dir())) {
         for e in rd.flatten() {
